@@ -14,6 +14,43 @@ JudgeClassify(r) ==
         \cup C(IdOfGroup(r.n, Span(r.gens)) = r.id, "classify")
         \cup C(r.reid = r.id, "reid")
 
+(***************************************************************************)
+(* A MUB family as returned by get_mubs / get_mub_circuits / get_mub_info  *)
+(* (C09): bases are lists of Pauli strings (chars), circuits gate lists,   *)
+(* readouts the library's own readout circuits for the same bases.         *)
+(***************************************************************************)
+RECURSIVE SumSeq(_, _)
+SumSeq(s, i) == IF i > Len(s) THEN 0 ELSE s[i] + SumSeq(s, i + 1)
+MaxSeq(s) == IF Len(s) = 0 THEN 0 ELSE CHOOSE m \in {s[i] : i \in DOMAIN s} : \A i \in DOMAIN s : s[i] <= m
+JudgeMubFam(r) ==
+   LET M == P2(r.n) + 1
+       B(i) == [j \in 1..Len(r.bases[i]) |-> FromChars(r.bases[i][j])]
+       nb == Len(r.bases)
+       spans == [i \in 1..nb |-> Span(B(i)) \ {Identity}]
+       costs == [i \in 1..Len(r.circuits) |-> Cost(r.circuits[i])]
+       depths == [i \in 1..Len(r.circuits) |-> Depth2q(r.circuits[i])]
+       rcosts == [i \in 1..Len(r.readouts) |-> Cost(r.readouts[i])]
+       union == UNION {spans[i] : i \in 1..nb}
+   IN  C(nb = M /\ Len(r.circuits) = M, "count")
+       \cup C(\A i \in 1..nb : Len(r.bases[i]) = r.n /\ (\A j \in 1..Len(r.bases[i]) : NumQubitsOfChars(r.bases[i][j]) = r.n)
+                                 /\ ValidStabilizer(r.n, B(i)), "basis")
+       \cup C(\A i \in 1..nb : \A j \in 1..nb : i < j => spans[i] \cap spans[j] = {}, "disjoint")
+       \cup C(Cardinality(union) = P2(2 * r.n) - 1, "complete")
+       \cup C(r.info.num = M, "info-num")
+       \cup C(r.info.maxcost = MaxSeq(costs), "info-maxcost")
+       \cup C(r.info.maxdepth = MaxSeq(depths), "info-maxdepth")
+       \cup C(r.info.avg[1] * M = SumSeq(costs, 1) * r.info.avg[2], "info-avg")
+       \cup C(Len(rcosts) = Len(costs) /\ \A i \in 1..Len(costs) : i <= Len(rcosts) => costs[i] <= rcosts[i], "worse-than-readout")
+
+(* get_connectivity_graph(n, conn).get_edges() is the documented coupling graph (C02) *)
+JudgeConnGraph(r) ==
+   C(IsSupported(r.n, r.conn), "bad-input")
+   \cup C({{r.edges[i][1], r.edges[i][2]} : i \in 1..Len(r.edges)} = Coupling(r.n, r.conn), "coupling-graph")
+   \cup C(r.nv = r.n, "coupling-graph")
+   \cup C(FromRows(r.n, r.rows) = FromEdgeSet(r.n, Coupling(r.n, r.conn)), "coupling-graph")
+
 Judge(r) == CASE r.op = "classify" -> JudgeClassify(r)
+              [] r.op = "conn_graph" -> JudgeConnGraph(r)
+              [] r.op = "mubfam" -> JudgeMubFam(r)
               [] OTHER -> {"unknown-op"}
 =============================================================================
